@@ -465,7 +465,7 @@ func init() {
 	register(&propSpec{
 		ID: "C07",
 		Build: func(tier string, seed int) []Unit {
-			ps := dedup(append(patterns.ShapesOf("zerowidth", "anchors", "opcodes", "bumpalong", "classes"), enumPats(tier, seed)...))
+			ps := dedup(append(patterns.ShapesOf("zerowidth", "anchors", "opcodes", "bumpalong", "classes", "balancing"), enumPats(tier, seed)...))
 			maxN := 4
 			if tier == "thorough" {
 				maxN = 5
@@ -603,6 +603,19 @@ func init() {
 					}
 				}
 			}
+			// RE2 / Python-style named groups and references inside option groups
+			for _, t := range []string{`(?P<n>a)(?i:(?P=n))b`, `(?P<n>a)(?-i:(?P=n))b`, `(?P<n>a)((?s)(?P=n).).`, `(?i:(?P<n>a))(?P=n)b`, `(?P<n>a)(?i)(?P=n)(?-i)b`} {
+				for _, o := range []int{patterns.OptRE2, patterns.OptRE2 | patterns.OptI} {
+					ast, ng, err := patterns.Parse(t, o)
+					if err != nil {
+						continue
+					}
+					for n := 0; n <= maxN+1; n++ {
+						us = append(us, Unit{ID: fmt.Sprintf("C18/%s/re2/o%d/n%d", t, o, n), Harness: "spell", Params: map[string]string{"pattern": t, "pattern_inline": t, "pattern_wrap": t,
+							"options": itoa(o), "options_rest": itoa(o), "copts": "", "n": itoa(n), "ast": ast.Sexpr(), "ngroups": itoa(ng), "anyi": "1"}})
+					}
+				}
+			}
 			// nested on/off groups against the reference scoping
 			for _, p := range patterns.ShapesOf("options") {
 				for _, o := range []int{0, patterns.OptN, patterns.OptX, patterns.OptI | patterns.OptN} {
@@ -639,6 +652,8 @@ func init() {
 					patterns.FromText("1"+string(c)+"2", 0, "shape:alphabet"), patterns.FromText(`\d+ `+string(c)+`\b`, 0, "shape:alphabet"), patterns.FromText(`1\.`+string(c), 0, "shape:alphabet"))
 			}
 			ps = dedup(ps)
+			// multi-literal leading prefixes exist only with the code-generator analysis
+			cgPats := []string{`1ab|2cd`, `-ab|+cd`, `ab|cd`, `1a|2b|3c`, `a1|b2`}
 			maxN, maxVar := 3, 2
 			if tier == "thorough" {
 				maxN, maxVar = 4, 6
@@ -660,6 +675,15 @@ func init() {
 						}
 						us = append(us, Unit{ID: fmt.Sprintf("C20/%s/%s/n%d", base, v, n), Harness: "icase", Domain: dom, Params: map[string]string{"pattern": base, "pattern_flipped": v,
 							"options": itoa(patterns.OptI), "copts": "", "n": itoa(n), "key_extra": v}})
+					}
+				}
+			}
+			for _, t := range cgPats {
+				base, vars := flippedVariants(t, patterns.OptI, 3)
+				for _, v := range append([]string{""}, vars...) {
+					for n := 2; n <= 3; n++ {
+						us = append(us, Unit{ID: fmt.Sprintf("C20/%s/g/%s/n%d", base, v, n), Harness: "icase", Domain: "case", Params: map[string]string{"pattern": base, "pattern_flipped": v,
+							"options": itoa(patterns.OptI), "copts": "g", "n": itoa(n), "key_extra": "g/" + v}})
 					}
 				}
 			}
@@ -1096,7 +1120,7 @@ func init() {
 			for _, t := range []string{`(?<o>a)+(?<-o>b)+(?(o)(?!))`, `(a)|(b)`, `(?<=(a)b)c`, `(a)*`, `((a)|(b))*c`, `(?:(a)b)+`, `(a)(?=(b))`, `(.)\1`, `(é)+`, `(\w)(\W)?`, `.`, `(?s)(.)+`, `(a*)(b*)`, `()`, `(?<x>a)(?<x>b)?`, `�`, `[^a]+`, `(a)?b`} {
 				ps = append(ps, patterns.FromText(t, 0, "shape:wellformed"))
 			}
-			ps = dedup(append(ps, patterns.ShapesOf("opcodes", "groups")...))
+			ps = dedup(append(ps, patterns.ShapesOf("opcodes", "groups", "balancing")...))
 			mx := map[string]int{"s": 3, "b": 3}
 			if tier == "thorough" {
 				mx = map[string]int{"s": 4, "b": 5}
@@ -1331,6 +1355,14 @@ func init() {
 				o := []int{0, patterns.OptI, patterns.OptE | 1024, patterns.OptRE2, patterns.OptRTL}[oi%5]
 				us = append(us, Unit{ID: fmt.Sprintf("C10/overflow/%q/p%d/o%d", sd, pos, o), Harness: "mutate", Domain: "full", StepBudget: 80_000_000, PathBudget: 40000,
 					Params: map[string]string{"pattern": sd, "positions": itoa(pos), "options": itoa(o), "texts": ",ab", "symtext": "0", "key_extra": "overflow", "copts": "b"}})
+			}
+			// ECMAScript classes that start with ']' ([] matches nothing, [^] anything): the capture-counting
+			// pre-scan and the parser must agree where the class ends
+			for _, sd := range []string{`[^](a)[^]`, `[](a)|(b)`, `[^](a)`, `(a)[^]](b)`, `[]]a(b)`} {
+				for _, pos := range []int{0, strings.Index(sd, "(a)") + 1} {
+					us = append(us, Unit{ID: fmt.Sprintf("C10/ecmaclass/%q/p%d", sd, pos), Harness: "mutate", Domain: "full", StepBudget: 80_000_000, PathBudget: 40000,
+						Params: map[string]string{"pattern": sd, "positions": itoa(pos), "options": itoa(patterns.OptE), "texts": ",ab,ba,xab", "symtext": "0", "key_extra": "ecmaclass", "copts": "b"}})
+				}
 			}
 			// short arbitrary patterns: one fully symbolic byte, alone and next to interesting neighbours
 			for _, ctx := range []string{"_", "_a", "a_", "(_)", "[_]", `\_`, "a{_}", "(?_)", "a_b", "[a-_]", `\p{_}`, "(?<_>a)", "$_"} {
